@@ -624,16 +624,24 @@ def _draw(rng, lo, hi, shape, q=64):
     return torch.tensor([rng.randint(int(lo * q), int(hi * q)) / q for _ in range(n)], dtype=torch.float64).reshape(shape)
 
 
-def random_values(st, rng, style="plain"):
+# shared-speed: g_metric = 1 / (gamma (1 - gamma))^2 is computed by the code in float32 with the cancellation 1 - gamma; its relative
+# error grows like 2^-23 / min(gamma, 1 - gamma), gamma = 1 / (1 + g exp(-delta)): positions are kept where this stays below the
+# oracle's allowance (a float-conditioning precondition of the test, not of the property)
+RANGES_SHARED = {"log_g": (-1.0, 2.0), "deltas": (-1.0, 1.0)}
+
+
+def random_values(st, rng, style="plain", kind=None):
     """random values for every population and individual latent variable of the state: {name: nested list}"""
     pop, ind = latent_names(st)
     out = {}
     for n in pop + ind:
         old = st[n]
         lo, hi = RANGES.get(n, (-1.0, 1.0))
+        if kind == "shared_speed_logistic" and n in RANGES_SHARED:
+            lo, hi = RANGES_SHARED[n]
         if n == "log_v0" and style == "wide":
             lo, hi = -10.0, -1.0
-        if n == "log_g" and style == "wide":
+        if n == "log_g" and style == "wide" and kind != "shared_speed_logistic":
             lo, hi = -3.0, 4.0
         v = _draw(rng, lo, hi, tuple(old.shape))
         if n == "xi":
@@ -657,19 +665,16 @@ def put_values(st, values):
 
 
 def metric_direction(kind, st):
-    """G o d in float64, from the population values by the documented formulas (not through the DAG nodes the basis is
-    wired to): logistic / joint  metric = (g+1)^2/g, G = metric^2, d = v0 = exp(log_v0);  linear  G = 1, d = v0;
-    shared-speed  G o d is collinear to metric_k = (g_k+1)^2/g_k, g_k = g exp(-delta_k), delta_0 = 0."""
-    import torch
-    if kind in ("logistic", "joint"):
-        g = torch.exp(st["log_g"].double())
-        return ((g + 1) ** 2 / g) ** 2 * torch.exp(st["log_v0"].double())
-    if kind == "linear":
-        return torch.exp(st["log_v0"].double())
+    """G o d in float64, recomputed from the two quantities the TRAJECTORY itself uses (not from the nodes the basis is wired
+    to): `metric` = the coefficient the trajectory puts on the space shift (C10_metric_is_trajectory_metric) and `v0`.
+    logistic / joint / linear: logit or value = metric (v0 rt + w) ..., so G = metric^2 and d = v0 (linear: metric = 1);
+    shared-speed: logit = metric w + rt + ..., the direction of progression is (1,..,1) in logit space and G o d is collinear
+    to `metric`."""
+    metric = _val(st["metric"]).double().reshape(-1)
+    if kind in ("logistic", "joint", "linear"):
+        return metric ** 2 * _val(st["v0"]).double().reshape(-1)
     if kind == "shared_speed_logistic":
-        d = torch.cat((torch.zeros(1, dtype=torch.float64), st["deltas"].double().reshape(-1)))
-        g = torch.exp(st["log_g"].double()) * torch.exp(-d)
-        return (g + 1) ** 2 / g
+        return metric
     raise ValueError(kind)
 
 
@@ -723,9 +728,10 @@ def attach_scale(st, kind, model):
     return (terms * (w > 0)).sum(dim=(1, 2))
 
 
-def compare(name, a, b, scale=None):
+def compare(name, a, b, scale=None, extra=None):
     """(index, before, after, ratio) of the worst entry; `a` (after) equals `b` (before) when ratio <= REL, ratio being
-    |a - b| / (1 + max(|b|, scale))"""
+    |a - b| / (1 + max(|b|, scale) + extra / REL): `extra` is an absolute allowance (first-order propagation of the float32
+    rounding of the two sums the step forms, see `rounding_allowance`)"""
     import torch
     if tuple(a.shape) != tuple(b.shape):
         return ("shape", list(b.shape), list(a.shape), float("inf"))
@@ -740,9 +746,36 @@ def compare(name, a, b, scale=None):
     if not bool(fb.any()):
         return (0, None, None, 0.0)
     s = 1 + (b.abs() if scale is None else torch.maximum(b.abs(), scale.double().reshape(b.shape) if scale.dim() == b.dim() else scale.double()))
+    if extra is not None:
+        s = s + torch.nan_to_num(extra.double().reshape(b.shape), nan=0.0, posinf=0.0) / REL
     r = torch.where(fb, (a - b).abs() / s, torch.zeros_like(a))
     i = int(r.reshape(-1).argmax())
     return (i, float(b.reshape(-1)[i]), float(a.reshape(-1)[i]), float(r.max()))
+
+
+def rounding_allowance(kind, st, model):
+    """What float32 rounding alone may do to a trajectory value through the step, to first order: the step replaces log_v0 by
+    fl(log_v0 + m) and xi by fl(xi - m) (absolute error <= 2^-24 (|log_v0| + |xi| + 2|m| + 2) on the exponent of v0 exp(xi)),
+    and d model / d log_v0 = model (1 - model) |T| (logistic, joint) or |T| (linear), T = metric v0 rt.  Times 4 for the
+    exp / product roundings (only matters for ill-conditioned entries, |T| >> 1 compensated by the space shift).  With sources the
+    basis is recomputed from v0 exp(m) (entries of the unit columns move by a few 2^-24, absolutely) and the space shifts
+    w = sources (B betas)^T with it: 6 * 2^-24 * sum_s |sources_is| sum_r |betas_rs| on every w_ik, and
+    d model / d w = model (1 - model) metric (logistic, joint) or 1 (linear)."""
+    import torch
+    xi = _val(st["xi"]).double().reshape(-1)
+    lv = _val(st["log_v0"]).double().reshape(-1)
+    mean = float(xi.mean())
+    rt = torch.nan_to_num(_val(st["rt"]).double(), nan=0.0, posinf=0.0, neginf=0.0)
+    rt = rt.reshape(rt.shape[0], rt.shape[1])
+    T = (_val(st["metric"]).double().reshape(-1) * _val(st["v0"]).double().reshape(-1))[None, None, :] * rt[:, :, None]
+    eps = 4 * 2.0 ** -24 * (lv.abs()[None, None, :] + xi.abs()[:, None, None] + 2 * abs(mean) + 2)
+    b = torch.nan_to_num(model.double(), nan=0.0)
+    slope = torch.ones_like(b) if kind == "linear" else (b * (1 - b)).abs()
+    out = eps * slope * T.abs()
+    if has_sources(st):
+        dw = 6 * 2.0 ** -24 * (_val(st["sources"]).double().abs() @ _val(st["betas"]).double().abs().sum(dim=0))
+        out = out + slope * (_val(st["metric"]).double().reshape(-1)[None, None, :] * dw[:, None, None])
+    return out
 
 
 def recentre_failures(kind, m, st, call=None):
@@ -752,6 +785,11 @@ def recentre_failures(kind, m, st, call=None):
     try:
         before = snapshot(st, kind)
         scale = attach_scale(st, kind, before["model"])
+        allow = rounding_allowance(kind, st, before["model"])
+        y = st["y"]
+        sig = _val(st["noise_std"]).double().reshape(-1)
+        resid = torch.nan_to_num((y.value.double() - before["model"].double()).abs()) * ((y.weight if y.weight is not None else torch.ones_like(y.value)) > 0)
+        allow_attach = (resid / sig ** 2 * allow).sum(dim=(1, 2))
         xi0 = st["xi"].detach().clone()
     except Exception as e:
         return [(f"recentre:{kind}:state-unreadable:{type(e).__name__}", f"reading the state before the step raised {type(e).__name__}: {e}", None, None)], info
@@ -774,7 +812,7 @@ def recentre_failures(kind, m, st, call=None):
         if n in ("nll_attach_ind", "nll_attach_y_ind"):
             sc = scale + (before["nll_attach_event_ind"].double().abs().reshape(scale.shape) if (n == "nll_attach_ind" and kind == "joint") else 0)
             sc = torch.nan_to_num(sc, posinf=0.0)
-        c = compare(n, after[n], before[n], sc)
+        c = compare(n, after[n], before[n], sc, extra=(allow if n == "model" else (allow_attach if sc is not None else None)))
         info["dev:" + n] = c[3]
         if not c[3] <= REL:
             what = {"model": "a trajectory value", "nll_attach_event_ind": "an event likelihood term"}.get(n, "an attachment term")
@@ -852,7 +890,7 @@ STATE_CONFIGS = [("logistic", 1, None), ("logistic", 3, 0), ("logistic", 3, 2), 
 
 
 def search_states(run: Run, T, thorough: bool):
-    rounds = 40 if thorough else 7
+    rounds = 120 if thorough else 7
     styles = ["plain", "plain", "wide", "equal", "first-dominant", "plain", "wide"]
     seen_sig = set()
     for kind, nf, sd in STATE_CONFIGS:
@@ -867,7 +905,7 @@ def search_states(run: Run, T, thorough: bool):
                          dict(what="state", kind=kind, n_feat=nf, source_dimension=sd, cohort=cohort, values={}))
                 break
             inp = dict(what="state", kind=kind, n_feat=nf, source_dimension=sd, cohort=cohort, style=style,
-                       values=random_values(st, rng, style))
+                       values=random_values(st, rng, style, kind))
             want_t3 = T is not None and r < (1 if not thorough else 4)
             fails, info = eval_state(inp, collect=(T.collect if want_t3 else None))
             src = bool(sd)
@@ -974,6 +1012,7 @@ class T3:
         self.lemmas: list[str] = []
         self.meta: list[dict] = []
         self.rng = run.rng("t3")
+        self.thorough = run.tier == "thorough"
         self.before = None
 
     def add(self, expr: str, obs, tol: Fraction, **meta):
@@ -1041,7 +1080,7 @@ class T3:
         traj = "gen_shared_traj_src" if kind == "shared_speed_logistic" else f"gen_{k_}_traj{sfx}"
         visits = [(i, j) for i in range(n_ind) for j in range(n_vis) if float(tw[i, j]) > 0]
         if traj in self.sigs and (src or kind != "shared_speed_logistic"):
-            for (i, j) in self.rng.sample(visits, min(4, len(visits))):
+            for (i, j) in self.rng.sample(visits, min(4 if self.thorough else 3, len(visits))):
                 k = self.rng.randrange(n_feat)
                 o = model[i, j, k]
                 self.add(self.app(traj, st, i, j, k), o, _tolq(float(o), 5e-6), what="trajectory", index=[i, j, k], **cfg)
@@ -1049,14 +1088,14 @@ class T3:
             att = f"gen_{k_}_attach{sfx}"
             node = "nll_attach_y_ind" if kind == "joint" else "nll_attach_ind"
             nobs = [(int((yw[i] > 0).sum()), i) for i in range(n_ind)]
-            for _, i in sorted(x for x in nobs if x[0] > 0)[:2]:
+            for _, i in sorted(x for x in nobs if x[0] > 0)[:(2 if self.thorough else 1)]:
                 terms = [self.app(att, st, i, j, k) for j in range(n_vis) for k in range(n_feat) if float(yw[i, j, k]) > 0]
                 o = _val(st[node])[i]
                 sc = float(attach_scale(st, kind, model)[i])
                 self.add("(" + " + ".join(terms) + ")", o, _tolq(sc, 1e-5), what="attachment", index=[i], terms=len(terms), **cfg)
             if kind == "joint":
                 ev = f"gen_joint_event{sfx}"
-                for i in self.rng.sample(range(n_ind), min(3, n_ind)):
+                for i in self.rng.sample(range(n_ind), min(3 if self.thorough else 2, n_ind)):
                     o = _val(st["nll_attach_event_ind"]).reshape(n_ind, -1)[i, 0]
                     self.add(self.app(ev, st, i), o, _tolq(float(o), 1e-5), what="event", index=[i], **cfg)
         if not src:
@@ -1075,7 +1114,7 @@ class T3:
             args = []
             for p in self.sigs[f"gen_{k_}_basis"]:
                 args.append(_Rl(_val(st[p[:-2]]).reshape(-1).tolist()) if p.endswith("_l") else _R(_val(st[p]).reshape(-1)[0]))
-            for _ in range(2):
+            for _ in range(2 if self.thorough else 1):
                 r, c = self.rng.randrange(B.shape[0]), self.rng.randrange(B.shape[1])
                 self.add(f"nth {c} (nth {r} (gen_{k_}_basis {' '.join(args)}) []) 0", B[r, c], _tolq(1, 4e-6), what="basis-from-population-values",
                          index=[r, c], **cfg)
@@ -1092,7 +1131,7 @@ class T3:
     def prove(self):
         names = sorted(self.sigs) + [f"gen_{SHORT[k]}_{x}" for k in KINDS_ORTHO for x in ("basis", "mixing", "space_shifts")] + ["gen_ortho_basis"]
         hdr = T3_HEADER_TMPL.replace("GEN_NAMES", " ".join(dict.fromkeys(names))).replace("LIST_FUNS", LIST_FUNS)
-        return self.run.interval_lemmas("t3", hdr, self.lemmas, "t3.", shard=max(12, len(self.lemmas) // 14 + 1))
+        return self.run.interval_lemmas("t3", hdr, self.lemmas, "t3.", shard=max(12, len(self.lemmas) // (14 if self.thorough else 8) + 1))
 
 
 def basis_failures(inp):
@@ -1141,8 +1180,10 @@ def search_basis(run: Run, T, thorough: bool):
                 run.fail(sig, what, inp, expected=e, observed=o)
             if T is not None and B is not None and tuple(B.shape) == (n, n - 1):
                 cells = [(r, q) for r in range(n) for q in range(n - 1)]
-                if n > 4:
+                if n > 4 and thorough:
                     cells = rng.sample(cells, 8)
+                elif n > 2 and not thorough:
+                    cells = rng.sample(cells, 3 if n == 3 else 2)
                 for r, q in cells:
                     T.add(f"nth {q} (nth {r} (gen_ortho_basis {_Rl(d)} {_Rl(G)}) []) 0", B[r, q], _tolq(1, 3e-6), what="compute_orthonormal_basis",
                           d=d, G=G, index=[r, q])
@@ -1260,7 +1301,7 @@ def check(run: Run, tie: bool):
                 "state[name] = tensor to random dyadic values (styles: plain, wide ranges, all xi equal, first coordinate dominant; mean xi "
                 "shifted by 0, +-0.25, +-0.75, +-2), then the real compute_sufficient_statistics: model / nll_attach_ind / nll_attach_y_ind / "
                 "nll_attach_event_ind before vs after, mean xi after, rows of mixing_matrix and space_shifts against G o d recomputed from "
-                "scratch; (2) compute_orthonormal_basis on random directions (either sign, zero first coordinate) and metrics, dims 2-6; "
+                "the `metric` and `v0` the trajectory itself uses; (2) compute_orthonormal_basis on random directions (either sign, zero first coordinate) and metrics, dims 2-6; "
                 "(3) short real fits with a recording wrapper around compute_sufficient_statistics, same oracles at every iteration; "
                 "(4) Coq-Interval lemmas: entries of model, attachment sums, event terms, v0 / metric_sqr, orthonormal_basis, mixing_matrix, "
                 "space_shifts, re-centred xi / log_v0 / n_log_nu of those very states against the GENERATED definitions.  "
